@@ -1,6 +1,6 @@
 CONSTANTS
   Defects = {"sfd_nocheck"}
-  Family = "errors"
+  Family = "errors_small"
   Deep = FALSE
 INIT Init
 NEXT Next
